@@ -3,6 +3,7 @@
    Model/Imports.v is corresponded against the real restorer (Cases/C17_cases.v). *)
 From Coq Require Import List String ZArith NArith Bool.
 Import ListNotations.
+From DV Require Import Model.Decision Gen.DecisionSrc Proofs.ImportLoopsProofs.
 From DV Require Import Model.Tree Model.Tables Model.Maps Model.Imports Proofs.ImportsProofs
      Gen.ImportsSrc Gen.ErrProp Gen.DecTbl Gen.Universe.
 Local Open Scope string_scope.
@@ -54,8 +55,35 @@ Example C17_nonvacuous :
   /\ (exists bs d n nb a, update_imports (fun p => Some p) "self" [] blocks ["fmt"; "os"] = Done bs d n nb a).
 Proof. split; [vm_compute; reflexivity|]. vm_compute. eauto 10. Qed.
 
+
+(* The loop of updateImports that asks the package-name resolver is translated on every run (one decision
+   program per iteration: skip a path that has an effective alias, else call the resolver, end the function
+   with an error when it fails, else record the name) and proved to be the step of the model's resolve_all,
+   which is the iteration of that step: the first failing path, in sorted order, is the one reported, and
+   nothing but the local table `resolved` has been written by then *)
+Theorem C17_resolve_loop_source_computes_the_model :
+  (forall resolve eff p acc,
+    match run (res_val resolve eff p) resolve_names_src with
+    | OReturn (DVal s) =>
+      if String.eqb s S_CONTINUE then res_step resolve eff p acc = inr acc
+      else if String.eqb s S_SET_RESOLVED
+           then exists n, resolve p = Some n /\ res_step resolve eff p acc = inr (Model.Imports.aset acc p n)
+           else False
+    | OReturn DErr => res_step resolve eff p acc = inl p
+    | _ => False
+    end) /\
+  (forall resolve eff p r acc,
+    Model.Imports.resolve_all resolve eff (p :: r) acc
+    = match res_step resolve eff p acc with inl e => inl e | inr acc' => Model.Imports.resolve_all resolve eff r acc' end).
+Proof. split; [exact resolve_names_source_is_model | exact resolve_all_by_steps]. Qed.
+
+Theorem C17_resolve_loop_is_within_the_vocabulary : import_loops_vocabulary_ok = true.
+Proof. vm_compute. reflexivity. Qed.
+
 Print Assumptions C17_restore_resolves_before_it_mutates.
 Print Assumptions C17_errors_are_propagated.
 Print Assumptions C17_decorator_checks_errors_and_writes_nothing.
 Print Assumptions C17_failure_is_an_unresolvable_reference.
 Print Assumptions C17_working_resolver_succeeds.
+Print Assumptions C17_resolve_loop_source_computes_the_model.
+Print Assumptions C17_resolve_loop_is_within_the_vocabulary.
